@@ -245,7 +245,8 @@ def _job(args):
     try:
         for (label, spec, fmt, compress, detailed, only_real, version) in cases:
             arrays = [build_array(*s) for s in spec]
-            sdata = {'t': 0.125, 'dt': 1e-3, 'count': 17}
+            sdata = {'t': 0.125, 'dt': 1e-3, 'count': 17,
+                     'integrator': 'EPECIntegrator', 'adaptive': True}
             n += 1
             try:
                 loaded = roundtrip(arrays, fmt, compress, detailed, only_real,
